@@ -128,9 +128,9 @@ template <integral Int, to_integer_options Options = to_integer_options{}>
         return makeError(to_integer_error::invalid_input);
     }
 
-    // optional minus for signed types
+    // optional minus for signed types (strtoul and its siblings negate in the unsigned type)
     [[maybe_unused]] auto positive = true;
-    if constexpr (signed_integral<Int>) {
+    if constexpr (signed_integral<Int> or Options.c_library_syntax) {
         if (str[pos] == '-') {
             positive = false;
             if (++pos == length) {
@@ -208,6 +208,12 @@ template <integral Int, to_integer_options Options = to_integer_options{}>
             } else {
                 value *= Int(-1);
             }
+        }
+    }
+
+    if constexpr (not signed_integral<Int>) {
+        if (not positive) {
+            value = static_cast<Int>(Int(0) - value);
         }
     }
 
